@@ -21,8 +21,14 @@ pub fn new_term_ref_type(term: Term) -> TermRefType {
 }
 
 /// 统一创建空「无序不重复词项容器」
+#[cfg(not(feature = "verif_hooks"))]
 pub fn new_term_set_type() -> TermSetType {
     TermSetType::new()
+}
+/// （验证钩子）统一创建空「无序不重复词项容器」
+#[cfg(feature = "verif_hooks")]
+pub fn new_term_set_type() -> TermSetType {
+    TermSetType::default()
 }
 
 /// 统一创建空「有序可重复词项容器」
